@@ -45,6 +45,30 @@ func lemma_C15_sender(code, id, subtype uint8, rand, oldMac, key []byte) {
 	verifAssert(verifBytesEq(mac, verifRefMac128(k0, w)), "C15/code-is-hmac-sha-256-128-over-the-wire-image-with-zero-mac-whatever-mac-was-there")
 }
 
+// computed again with the same key (what a receiver holding the same K_aut does in the
+// same process): the same code, whatever was computed before.  Smallest packet: AT_MAC only.
+//
+//verif:bounded packets with AT_MAC only
+//verif:bytes
+//verif:maxlen key=1000000
+//verif:unroll (*eap.EapAkaPrime).Marshal#loop1 2 assert
+//verif:unroll (*eap.EapAkaPrime).getAttrsKeys#loop1 2 assert
+//verif:unroll (*eap.EapAkaPrime).GetAttr#loop1 2 assert
+func lemma_C15_recompute(code, id, subtype uint8, key []byte) {
+	k0 := append([]byte{}, key...)
+	a := NewEapAkaPrime(EapAkaSubtype(subtype))
+	x := &EAP{Code: EapCode(code), Identifier: id, EapTypeData: a}
+	_, err := x.CalcEapAkaPrimeAtMAC(key)
+	verifAssume(err == nil)
+	mac2, err2 := x.CalcEapAkaPrimeAtMAC(key)
+	n := 8 + 20
+	w := make([]byte, n)
+	w[0], w[1], w[2], w[3] = code, id, byte(n>>8), byte(n)
+	w[4], w[5], w[6], w[7] = 50, subtype, 0, 0
+	w[8], w[9], w[10], w[11] = 11, 5, 0, 0
+	verifAssert(err2 == nil && verifBytesEq(mac2, verifRefMac128(k0, w)), "C15/code-is-independent-of-earlier-computations")
+}
+
 // receiver: decoding the transmitted packet (attributes in ascending type order, as
 // this library transmits them) and computing the code with the same key gives the
 // HMAC over the transmitted octets with the AT_MAC value zeroed - i.e. the transmitted
@@ -57,13 +81,18 @@ func lemma_C15_sender(code, id, subtype uint8, rand, oldMac, key []byte) {
 //verif:unroll (*eap.EapAkaPrime).Unmarshal#loop1 4 assert
 //verif:unroll (*eap.EapAkaPrime).Marshal#loop1 3 assert
 //verif:unroll (*eap.EapAkaPrime).getAttrsKeys#loop1 3 assert
-func lemma_C15_receiver(code, id, subtype uint8, rand, tag, key []byte) {
+func lemma_C15_receiver(code, id, subtype, r0, r1 uint8, rand, tag, key []byte) {
 	verifAssume(len(rand) == 16 && len(tag) == 16)
 	k0 := append([]byte{}, key...)
 	n := 8 + 20 + 20
 	w := make([]byte, n)
 	w[0], w[1], w[2], w[3] = code, id, byte(n>>8), byte(n)
-	w[4], w[5], w[6], w[7] = 50, subtype, 0, 0
+	// (reserved octets of the EAP-AKA' header: whatever the sender put there is part of
+	// what was transmitted, hence of what the code covers.  The two reserved octets inside
+	// AT_RAND / AT_AUTN / AT_MAC are zero in a well-formed packet - RFC 4187 10.6: "set to
+	// zero when sending" - and the decoder drops them, so with non-zero values there the
+	// receiver's code would not cover the transmitted octets: outside the property's domain)
+	w[4], w[5], w[6], w[7] = 50, subtype, r0, r1
 	w[8], w[9], w[10], w[11] = 1, 5, 0, 0
 	copy(w[12:28], rand)
 	w[28], w[29], w[30], w[31] = 11, 5, 0, 0
